@@ -123,6 +123,73 @@ class SymList(VObj):
         return VSeq(self.length, lambda i, arr=arr: VAny(z3.Select(arr, i)), None, 'list')
 
 
+class SymKeyList(VObj):
+    """list of fixed length holding dict keys (tuples), written by index: `lst = [None] * n;
+    lst[i] = key`.  Unwritten positions hold an arbitrary key (an over-approximation of None)."""
+
+    def __init__(self, name, length):
+        super().__init__(list, tag='symkeylist')
+        self.length = length
+        self.arr = z3.Const(fresh_name(name) + '.keys', z3.ArraySort(z3.IntSort(), Key))
+        self.arity = None
+
+
+class SymMap(VObj):
+    """dict from key tuples to scalar values: domain predicate + value array"""
+
+    def __init__(self, name, fresh=False):
+        super().__init__(dict, tag='symmap')
+        n = fresh_name(name)
+        self.has = z3.Const(n + '.has', z3.ArraySort(Key, z3.BoolSort())) if fresh else z3.K(Key, z3.BoolVal(False))
+        self.val = z3.Const(n + '.val', z3.ArraySort(Key, PyVal))
+        self.arity = None
+
+
+def norm_index_checked(I, k, n):
+    """Python list index: normalised position; IndexError path when out of range."""
+    from .interp import PyRaise
+    from .values import VExc
+    kt = _int(k)
+    if I.ex.choose(z3.Or(kt < -n, kt >= n)):
+        raise PyRaise(VExc(IndexError))
+    return z3.If(kt < 0, kt + n, kt)
+
+
+def sym_getitem(I, obj, k):
+    from .interp import PyRaise
+    from .values import VExc
+    if isinstance(obj, SymKeyList):
+        j = norm_index_checked(I, k, obj.length)
+        kv = KeyVal(z3.Select(obj.arr, j))
+        kv.arity = obj.arity
+        return kv
+    if isinstance(obj, SymMap):
+        kt = k.term if isinstance(k, KeyVal) else mkkey(I, k)
+        if I.ex.choose(z3.Not(z3.Select(obj.has, kt))):
+            raise PyRaise(VExc(KeyError))
+        return VAny(z3.Select(obj.val, kt))
+    raise Unsupported(f'item read on {obj.tag}')
+
+
+def sym_setitem(I, obj, k, v):
+    if isinstance(obj, SymKeyList):
+        j = norm_index_checked(I, k, obj.length)
+        if isinstance(v, VTuple):
+            obj.arity = len(v.items)
+        obj.arr = z3.Store(obj.arr, j, v.term if isinstance(v, KeyVal) else mkkey(I, v))
+        return
+    if isinstance(obj, SymMap):
+        kt = k.term if isinstance(k, KeyVal) else mkkey(I, k)
+        if isinstance(k, VTuple):
+            obj.arity = len(k.items)
+        elif isinstance(k, KeyVal) and getattr(k, 'arity', None):
+            obj.arity = k.arity
+        obj.has = z3.Store(obj.has, kt, z3.BoolVal(True))
+        obj.val = z3.Store(obj.val, kt, to_pyval(v))
+        return
+    raise Unsupported(f'item store on {obj.tag}')
+
+
 def truthy_sym(v):
     if isinstance(v, Bucket):
         return z3.Select(v.d.blen, v.k) > 0
@@ -247,6 +314,11 @@ def havoc(obj, name='h'):
     elif isinstance(obj, SymList):
         obj.length = z3.Int(n + '.len')
         obj.arr = z3.Const(n + '.arr', z3.ArraySort(z3.IntSort(), PyVal))
+    elif isinstance(obj, SymKeyList):
+        obj.arr = z3.Const(n + '.keys', z3.ArraySort(z3.IntSort(), Key))
+    elif isinstance(obj, SymMap):
+        obj.has = z3.Const(n + '.has', z3.ArraySort(Key, z3.BoolSort()))
+        obj.val = z3.Const(n + '.val', z3.ArraySort(Key, PyVal))
     elif isinstance(obj, VList):
         for j, x in enumerate(obj.items):
             havoc(x, f'{name}{j}')
@@ -319,6 +391,14 @@ def spec_api(I, name, args):
         a, idx, v = args
         it = idx.term if isinstance(idx, KeyVal) else (_keyterm(I, idx) if isinstance(idx, VTuple) else _int(idx))
         return VArr(z3.Store(a.t, it, _int(v)))
+    if name == 'kat':
+        kv = KeyVal(z3.Select(args[0].arr, _int(args[1])))
+        kv.arity = args[0].arity
+        return kv
+    if name == 'mhas':
+        return VBool(z3.Select(args[0].has, _keyterm(I, args[1])))
+    if name == 'mget':
+        return VAny(z3.Select(args[0].val, _keyterm(I, args[1])))
     if name == 'key_part':
         jj = args[1].concrete() if hasattr(args[1], 'concrete') else args[1]
         if not isinstance(jj, int):
@@ -444,4 +524,4 @@ def choose_patterns(bound, body, max_alternatives=4):
     return alts or None
 
 
-SPEC_API = {'key_part', 'same', 'at', 'ghost_zero_int', 'ghost_zero_key', 'mk_key', 'blen', 'bat', 'dcount', 'dord', 'smem', 'llen', 'lat', 'sel', 'upd', 'forall'}
+SPEC_API = {'kat', 'mhas', 'mget', 'key_part', 'same', 'at', 'ghost_zero_int', 'ghost_zero_key', 'mk_key', 'blen', 'bat', 'dcount', 'dord', 'smem', 'llen', 'lat', 'sel', 'upd', 'forall'}
